@@ -321,6 +321,14 @@ def run_routing(case):
         if ev[0] == 'error':
             evs.append(('error', None))
             continue
+        if ev[0] == 'burst':
+            # many packets of one function arrive before the receiver looks again
+            for _i in range(ev[2]):
+                pk = {'src': 1, 'dst': 3, 'fn': ev[1], 'last': False, 'data': [seq & 0xff, seq >> 8]}
+                seq += 1
+                evs.append(('packet', _mk(pk), pk))
+            out.feat('routing-burst')
+            continue
         if ev[0] == 'packet':
             pk = dict(ev[1])
             pk['data'] = [seq & 0xff, seq >> 8] + list(pk['data'])
@@ -381,7 +389,10 @@ def routing_strategy(draw):
     n = draw(st.integers(1, 25))
     events = []
     for _ in range(n):
-        k = draw(st.sampled_from(['packet', 'packet', 'packet', 'packet', 'register', 'take', 'error']))
+        k = draw(st.sampled_from(['packet', 'packet', 'packet', 'packet', 'register', 'take', 'error'] + (['burst'] if _ < 4 else [])))
+        if k == 'burst':
+            events.append(['burst', draw(st.sampled_from(fns)), draw(st.sampled_from([20, 33, 40, 70, 130, 300]))])
+            continue
         if k == 'error':
             events.append(['error', 0])
             continue
